@@ -217,7 +217,10 @@ PROPS.update({
         "trusted_base": [KERNEL, EXTRACT, HARNESS, MODELLED + " (Model/CTree.v, CTreeChar.v, DomPGKeys.v <-> constraint_tree.rs, constraint_tree/build.rs, "
                          "string/constraint.rs, portgraph/constraint.rs, portgraph/constraint/mutex.rs, utils::sort_with_indices)"],
         "assumptions": COMMON_ASSUMPTIONS + ["IsConnected / HasNodeWeight are treated as opaque atoms in the brute-force faithfulness oracle (their truth is "
-                                             "drawn per (predicate, argument values)); IsNotEqual is evaluated on the node assignment"],
+                                             "drawn per (predicate, argument values)); IsNotEqual is evaluated on the node assignment",
+                                             "deterministic reading (make_det trees, first satisfied child of the root only): theorem c10_pg_tree_root_exclusive for a smallest "
+                                             "constraint IsConnected / HasNodeWeight; for a smallest constraint IsNotEqual decided by the oracle on concrete hosts "
+                                             "(key k bound to node k, every realisable subset of the IsConnected constraints as links)"],
         "timeout": 3000,
         "explanation": "Theorems c10_*: valid indices, presence of the (index of the) smallest constraint and faithfulness are proved for "
                        "with_children, with_pairwise_mutex, with_transitive_mutex, with_powerset (for every valuation under which conditioned is an "
